@@ -303,6 +303,11 @@ def main(argv=None):
         if a.replay:
             return do_replay(mod, a.replay)
         deadline = int(os.environ.get("VERIF_DEADLINE_S") or (1500 if a.tier == "quick" else 7200))
+        old = os.path.join(target.OUT, "replays", pid)
+        if os.path.isdir(old):
+            for fn in os.listdir(old):
+                if fn.endswith(".json"):
+                    os.unlink(os.path.join(old, fn))
         report = Report()
         if hasattr(mod, "selfcheck"):
             mod.selfcheck()
